@@ -53,7 +53,8 @@ def spy(gate, a, pulse_desc, seed):
     try:
         np.random.seed(seed)
         with np.errstate(all="ignore"):
-            fac.construct(a["phi_ctr"], a["phi_trg"], a["t"], a["p2"], a["pc"], a["pt"], a["T1c"], a["T2c"], a["T1t"], a["T2t"])
+            G = fac.construct(a["phi_ctr"], a["phi_trg"], a["t"], a["p2"], a["pc"], a["pt"], a["T1c"], a["T2c"], a["T1t"], a["T2t"])
+        spy.last_result = np.array(G, dtype=complex)
     finally:
         np.kron = okron
         for sub, orig in restore:
@@ -132,6 +133,25 @@ def oracle(gate, a, pulse_desc, seed):
                 bad.append(f"CR pulse was handed (T1,T2,T1,T2)={tuple(c['args'][4:8])}, slot order demands {rec[q0][1:] + rec[q1][1:]}")
     if len({c["args"][3] for c in crs}) > 1:
         bad.append("the CR pulses of one gate were handed different two-qubit errors")
+    # the sampled gate is the product of its pulse layers, every sampled pulse entering exactly once (independent pulses)
+    if not bad:
+        import itertools
+        layers = [np.kron(x, y) for x, y in krons] + [c["result"] for c in crs]
+        G = spy.last_result
+        ok = False
+        if len(layers) <= 6 and np.isfinite(G).all():
+            i = np.unravel_index(np.argmax(np.abs(G)), G.shape)
+            for perm in itertools.permutations(range(len(layers))):
+                P = np.eye(4, dtype=complex)
+                for k in perm:
+                    P = layers[k] @ P
+                if abs(P[i]) > 1e-12 and np.abs(G - (G[i] / P[i]) * P).max() <= 1e-10:
+                    ok = True
+                    break
+            if not ok:
+                bad.append(f"the sampled gate is not the product of its {len(layers)} pulse layers with every sampled pulse entering exactly "
+                           "once (a sampled pulse is reused, dropped, or replaced): the pulses of the sequence are not sampled independently")
+
     return bad, (crs[0]["args"][3] if crs else None), len(calls)
 
 
